@@ -1,5 +1,4 @@
-import OW.Proofs.C16Lemmas
-import OW.Kernels.C16.Partitions
+import OW.Proofs.C16Rating
 /-!
 C16, part 2 — partitioning models split without loss: the two outputs of the fixed, variable, rating-curve and demand
 partitions always sum to the input; extraction never exceeds demand or availability and outflow is never negative.
@@ -76,43 +75,36 @@ theorem ratingPartition_sum (xs ys input : List ℝ) (os : List (ℝ × ℝ))
         subst h
         simp only [List.map_cons, ih os' hos', ratingPartition_step_sum xs ys x o ho]
 
-/-- the search loop of `brackets` finds a bracket as soon as some later abscissa is ≥ x -/
-theorem bracketLoop_some (x : ℝ) (rest : List ℝ) (j : Nat) (h : ∃ v ∈ rest, x ≤ v) :
-    ∃ k, Fn.bracketLoop x rest j = some (k - 1, k) ∧ j ≤ k ∧ k < j + rest.length := by
-  induction rest generalizing j with
-  | nil => obtain ⟨v, hv, _⟩ := h; cases hv
-  | cons v rest ih =>
-    unfold Fn.bracketLoop
-    by_cases hx : x ≤ v
-    · rw [if_pos hx]; exact ⟨j, rfl, le_refl _, by simp⟩
-    · rw [if_neg hx]
-      have h' : ∃ w ∈ rest, x ≤ w := by
-        obtain ⟨w, hw, hxw⟩ := h
-        rcases List.mem_cons.mp hw with rfl | hw
-        · exact absurd hxw hx
-        · exact ⟨w, hw, hxw⟩
-      obtain ⟨k, hk, h1, h2⟩ := ih (j + 1) h'
-      exact ⟨k, hk, by omega, by simp only [List.length_cons]; omega⟩
-
-/-- inside the table range `brackets` returns two adjacent, valid row indices `(k-1, k)` (tables of ≥ 2 rows) -/
-theorem brackets_inside (x0 x1 : ℝ) (rest : List ℝ) (x : ℝ)
-    (hlo : x0 ≤ x) (hhi : x ≤ (x1 :: rest).getLast (List.cons_ne_nil _ _)) :
-    ∃ k, 1 ≤ k ∧ k < (x0 :: x1 :: rest).length ∧ Fn.brackets x (x0 :: x1 :: rest) = .ok (some (k - 1, k)) := by
-  have hmem : ∃ v ∈ x1 :: rest, x ≤ v := ⟨_, List.getLast_mem _, hhi⟩
-  obtain ⟨k, hk, h1, h2⟩ := bracketLoop_some x (x1 :: rest) 1 hmem
-  have hlast : (x0 :: x1 :: rest).getLast?.getD x0 = (x1 :: rest).getLast (List.cons_ne_nil _ _) := by
-    simp [List.getLast?_eq_some_getLast]
-  refine ⟨k, h1, by simp only [List.length_cons] at h2 ⊢; omega, ?_⟩
-  unfold Fn.brackets
-  simp only
-  rw [if_neg (not_lt.mpr hlo), hlast, if_neg (not_lt.mpr hhi), hk]
-
 /-- for a strictly increasing table the divisor `x1 - x0` of the interpolation between adjacent rows is positive:
 the proportion is never obtained from a division by zero -/
 theorem ratingPartition_divisor_pos (xs : List ℝ) (hs : xs.Pairwise (· < ·)) (k : Nat) (hk : 1 ≤ k)
     (hkn : k < xs.length) : 0 < xs[k] - xs[k - 1]'(by omega) := by
   have := (List.pairwise_iff_getElem.mp hs) (k - 1) k (by omega) hkn (by omega)
   linarith
+
+/-- **RatingCurvePartition, catalogue-model level**: for EVERY parameter column (any `nPts`, any table rows — the column
+is decoded as `nPts, inputAmount[nPts], proportion[nPts]`) and every input series, if the run returns then its two
+output series sum, timestep by timestep, to the input series. -/
+theorem ratingPartition_model_sum (p input : List ℝ) (o : KOut ℝ)
+    (h : (RatingCurvePartition.model (α := ℝ)).run p [input] [] = .ok o) :
+    ∃ out1 out2, o.outputs = [out1, out2] ∧ List.zipWith (· + ·) out1 out2 = input := by
+  simp only [RatingCurvePartition.model] at h
+  split at h
+  · rename_i hin _
+    simp only [List.cons.injEq, and_true] at hin
+    subst hin
+    split at h
+    · cases h
+    · rename_i os hos
+      simp only [Except.ok.injEq] at h
+      subst h
+      refine ⟨_, _, rfl, ?_⟩
+      rw [← ratingPartition_sum _ _ _ os hos]
+      clear hos
+      induction os with
+      | nil => rfl
+      | cons a as ih => simp only [List.map_cons, List.zipWith_cons_cons, ih]
+  · cases h
 
 /-- **RatingCurvePartition is defined on the whole table range, end points included**: with at least two rows, as many
 proportions as abscissae, and the input between the first and the last abscissa, a timestep does not panic.
